@@ -227,7 +227,16 @@ pub fn run(run: &mut Run) {
         let mut o2 = o;
         o2.raw_eol = true;
         let n2 = run.tier.pick(400, 5_000);
-        run.campaign("focused-raw-eol-in-string", || wfile_strategy(o2), n2, check, classify);
+        // failures that match the finding's key are counted and the search goes on; anything else is reported
+        let tolerant = |f: &WFile| match check(f) {
+            Err(v) if !v.kind.starts_with("harness-") && classify(f, &v).is_some() => {
+                let mut rep = CaseReport::new();
+                rep.exclude("known:C02-raw-eol-in-string");
+                Ok(rep)
+            }
+            other => other,
+        };
+        run.campaign("focused-raw-eol-in-string", || wfile_strategy(o2), n2, tolerant, classify);
     }
 }
 
@@ -236,8 +245,13 @@ pub fn classify(case: &WFile, v: &Violation) -> Option<&'static str> {
     if case.raw_eol_in_strings && matches!(v.kind.as_str(), "object-differs" | "trailer-differs") {
         let mut c2 = case.clone();
         c2.raw_eol_in_strings = false;
+        // the same preparation as `check` (sanitising changes what the writer's tape is spent on)
         let mut c1 = case.clone();
         c1.revisions.truncate(1);
+        let mut scratch = CaseReport::new();
+        for r in c1.revisions.iter_mut() {
+            sanitise_rev(r, &mut scratch);
+        }
         let uses_raw = writer::write(&c1).features.iter().any(|f| f.starts_with("string-raw-c"));
         if uses_raw && check(&c2).is_ok() {
             return Some("C02-raw-eol-in-string");
